@@ -4,7 +4,7 @@
    An S-record is plain data: for every field a priority and the definition that won so far.  A
    definition is the text of a body together with the record literal it was written in (its lexical
    scope: the field names of that literal), or the merge [d1 & d2] of two definitions of equal
-   priority (a piecewise definition).  There is no heap, no thunk, no caching, no reverting:
+   priority (a piecewise definition), and the contracts attached to it by all the merged records.  There is no heap, no thunk, no caching, no reverting:
    a field is read by evaluating its definition with every sibling name bound, late, to the field of
    the SAME final record [R].  Definitions only. *)
 From Coq Require Import List NArith ZArith Bool.
@@ -15,7 +15,7 @@ Inductive sbody : Type :=
 | SLeaf (scope : list N) (t : tm)
 | SMerge2 (l r : sbody).
 
-Record sfld : Type := { sprio : prio; sval : option sbody }.
+Record sfld : Type := { sprio : prio; sval : option sbody; sctrs : list (ckind * sbody) }.
 Definition srec : Type := list (N * sfld).
 
 Fixpoint slookup (k : N) (R : srec) : option sfld :=
@@ -43,7 +43,9 @@ Fixpoint sfield (fuel : nat) (R : srec) (k : N) : outcome :=
       | Some b =>
           match fuel with
           | O => OutOfFuel
-          | S n => seval_body (fun x => var_out (sfield n R x)) b
+          | S n =>
+              let look := fun x => var_out (sfield n R x) in
+              apply_ctrs (seval_body look b) (map (fun kc => (fst kc, seval_body look (snd kc))) (sctrs f))
           end
       end
   end.
@@ -51,16 +53,17 @@ Fixpoint sfield (fuel : nat) (R : srec) (k : N) : outcome :=
 (* ---- merging S-records: per field, the higher priority wins; equal priorities give the
    piecewise definition; a field without definition loses to any definition *)
 Definition smerge_fld (f1 f2 : sfld) : sfld :=
+  let cs := sctrs f1 ++ sctrs f2 in      (* the contracts of both sides, whatever the priorities *)
   match sval f1, sval f2 with
   | Some b1, Some b2 =>
       match pcmp (sprio f1) (sprio f2) with
-      | Eq => {| sprio := sprio f1; sval := Some (SMerge2 b1 b2) |}
-      | Gt => f1
-      | Lt => f2
+      | Eq => {| sprio := sprio f1; sval := Some (SMerge2 b1 b2); sctrs := cs |}
+      | Gt => {| sprio := sprio f1; sval := sval f1; sctrs := cs |}
+      | Lt => {| sprio := sprio f2; sval := sval f2; sctrs := cs |}
       end
-  | Some _, None => f1
-  | None, Some _ => f2
-  | None, None => {| sprio := PNeut; sval := None |}
+  | Some _, None => {| sprio := sprio f1; sval := sval f1; sctrs := cs |}
+  | None, Some _ => {| sprio := sprio f2; sval := sval f2; sctrs := cs |}
+  | None, None => {| sprio := PNeut; sval := None; sctrs := cs |}
   end.
 
 Definition smerge_opt (o1 o2 : option sfld) : option sfld :=
@@ -81,7 +84,8 @@ Definition smerge (R1 R2 : srec) : srec :=
    its literal (a dynamically named field is a field like any other, but no body can name it) *)
 Definition sden_lit (l : literal) : srec :=
   map (fun kd => (fst kd, {| sprio := fprio (snd kd);
-                             sval := option_map (SLeaf (lit_scope l)) (fbody (snd kd)) |})) l.
+                             sval := option_map (SLeaf (lit_scope l)) (fbody (snd kd));
+                             sctrs := map (fun c => (fst c, SLeaf (lit_scope l) (snd c))) (fctrs (snd kd)) |})) l.
 
 (* ---- the S-records an override history denotes, one per step ([None]: the step refers to a
    step that does not exist) *)
